@@ -14,6 +14,7 @@ type Val struct {
 	Sort  string
 	Addr  *Addr // set for pointers to slice elements (never materialised as Ref terms)
 	Tuple []Val
+	Lazy  types.Type // contract name of a captured variable: the value is loaded from T when used
 	ConstLen int // for slices of a fresh fixed-size array: length+1
 	IsType bool // type expression in a contract (Typ holds it)
 	Pkg   *types.Package
@@ -132,7 +133,7 @@ func (u *Unit) assumeRec(t Term, rec *Rec) {
 		return
 	}
 	for _, q := range rec.Quants {
-		if len(q.Offs) > 0 && strings.Contains(t, q.Text) {
+		if (len(q.Offs) > 0 || len(q.TVars) > 0) && strings.Contains(t, q.Text) {
 			u.hyps = append(u.hyps, hyp{len(u.cmds), t, q})
 		}
 	}
@@ -452,9 +453,25 @@ func (o *Obligation) instantiate() (Term, []string) {
 			cands = append(cands, t)
 		}
 	}
+	type skolem struct{ name, src, sort string }
+	var skolems []skolem
 	if o.rec != nil {
 		for i, q := range o.rec.Quants {
 			if !strings.Contains(goal, q.Text) {
+				continue
+			}
+			if len(q.TVars) > 0 {
+				var ts []Term
+				for j := range q.TVars {
+					sk := fmt.Sprintf("sk!%d!%d", i, j)
+					extra = append(extra, "(declare-fun "+sk+" () "+q.TSort+")")
+					if q.TSort == SStr {
+						extra = append(extra, "(assert (and (>= (STRLEN "+sk+") 0) (= (= (STRLEN "+sk+") 0) (= "+sk+" EMPTYSTR))))")
+					}
+					ts = append(ts, sk)
+					skolems = append(skolems, skolem{sk, q.TNames[j], q.TSort})
+				}
+				goal = strings.ReplaceAll(goal, q.Text, instTyped(q, ts))
 				continue
 			}
 			sk := fmt.Sprintf("sk!%d", i)
@@ -479,6 +496,31 @@ func (o *Obligation) instantiate() (Term, []string) {
 	done := map[string]bool{}
 	for _, h := range u.hyps {
 		if h.pos > o.Prefix {
+			continue
+		}
+		if len(h.q.TVars) > 0 {
+			// typed quantifier: instantiate with the goal's skolem constants of the same source name
+			var ts []Term
+			for j, nm := range h.q.TNames {
+				var pick Term
+				for _, sk := range skolems {
+					if sk.src == nm && sk.sort == h.q.TSort {
+						pick = sk.name
+					}
+				}
+				if pick == "" {
+					break
+				}
+				_ = j
+				ts = append(ts, pick)
+			}
+			if len(ts) == len(h.q.TVars) {
+				inst := strings.ReplaceAll(h.F, h.q.Text, instTyped(h.q, ts))
+				if !done[inst] {
+					done[inst] = true
+					extra = append(extra, "(assert "+inst+")")
+				}
+			}
 			continue
 		}
 		offs := map[Term]bool{}
